@@ -100,23 +100,23 @@ type vc11Candidate struct {
 // The statement: the host itself or one of its parent domains, up to four
 // labels, excluding the public suffix.  Following DESIGN.md the names are the
 // suffixes of the last four labels that are longer than the public suffix.
+// Which public suffix is decided by the doc comment in hashableSubdomains:
+// "Check the full private domain space, but still exclude the ICANN suffix
+// under the private one, if any."  So:
 //
-//   - longer than the complete public suffix (private rules and the default
-//     rule included): must be consulted under every reading (vc11Must);
-//   - not longer than the ICANN public suffix: must not be consulted under any
-//     reading (vc11MustNot), and so is everything that is not returned here;
-//   - in between (a private suffix such as github.io, the part of it above the
-//     ICANN suffix, a TLD that is not on the list): the statement does not say
-//     which public suffix is meant, and the code documents "check the full
-//     private domain space", so either is accepted (vc11Free).
+//   - longer than the ICANN public suffix (this includes a private suffix such
+//     as github.io itself, and a TLD that is not on the list, which has no
+//     ICANN suffix under it): must be consulted (vc11Must);
+//   - not longer than the ICANN public suffix: must not be consulted
+//     (vc11MustNot), and so is everything that is not returned here.
+//
+// vc11Free is kept for readings the documentation does not decide; no
+// candidate is classified so at present.
 func vc11Candidates(n vc11Name) (cands []vc11Candidate) {
 	for k := min(4, len(n.labels)); k >= 1; k-- {
 		kind := vc11MustNot
-		switch {
-		case k > n.ps:
+		if k > n.icann {
 			kind = vc11Must
-		case k > n.icann:
-			kind = vc11Free
 		}
 
 		cands = append(cands, vc11Candidate{name: n.vc11Tail(k).String(), kind: kind})
@@ -188,6 +188,26 @@ var (
 	vc11TwinOnce  sync.Once
 	vc11TwinLabel = map[string]string{}
 )
+
+// vc11Twin2 is a second name under "com" with the prefix of "bad.com", so
+// that one prefix has three suffixes.
+var (
+	vc11Twin2Once sync.Once
+	vc11Twin2Name string
+)
+
+func vc11Twin2() string {
+	vc11Twin2Once.Do(func() {
+		want := vc11Sum(vc11BaseLabel + ".com")[:4]
+		for i := 0; vc11Twin2Name == ""; i++ {
+			if name := fmt.Sprintf("u%d.com", i); vc11Sum(name)[:4] == want {
+				vc11Twin2Name = name
+			}
+		}
+	})
+
+	return vc11Twin2Name
+}
 
 func vc11Twins() map[string]string {
 	vc11TwinOnce.Do(func() {
@@ -330,6 +350,9 @@ func vc11Universe(focus []vc11Name) (u []vc11Name) {
 		}
 	}
 
+	// The root name: the question "." arrives as the empty host.
+	add(vc11Name{})
+
 	sort.Slice(u, func(i, j int) bool { return u[i].String() < u[j].String() })
 
 	return u
@@ -402,8 +425,13 @@ func vc11GenList(t *rapid.T, label string, names []string, favoured ...string) (
 	nBlank := rapid.IntRange(0, 3).Draw(t, label+".blank")
 	for i := 0; i < nBlank; i++ {
 		at := rapid.IntRange(0, len(lines)).Draw(t, label+".blankAt")
-		lines = append(lines[:at], append([]string{""}, lines[at:]...)...)
-		forms["blank"] = true
+		filler := rapid.SampledFrom([]string{"", "", "#", "# comment"}).Draw(t, label+".filler")
+		lines = append(lines[:at], append([]string{filler}, lines[at:]...)...)
+		if filler == "" {
+			forms["blank"] = true
+		} else {
+			forms["bare-comment"] = true
+		}
 	}
 
 	crlf := rapid.SampledFrom([]string{"lf", "lf", "crlf", "mixed"}).Draw(t, label+".eol")
